@@ -165,6 +165,9 @@ type BlockMetadata struct {
 	Size         uint64
 }
 
+// sizeUnknowable marks a seekable source that does not support io.SeekEnd.
+const sizeUnknowable = -2
+
 // SkipNext jumps over the next block, returning metadata about what it is (the CID, offset, and size).
 // Like Next it will return an io.EOF once it has reached the end.
 //
@@ -199,24 +202,27 @@ func (br *BlockReader) SkipNext() (*BlockMetadata, error) {
 
 	// move our reader forward; either by seeking or slurping
 
-	if brs, ok := br.r.(io.ReadSeeker); ok {
+	brs, canSeek := br.r.(io.ReadSeeker)
+	if canSeek && br.readerSize == -1 {
 		// carv1 and we don't know the size, so work it out and cache it so we
 		// can use it to determine over-reads
-		if br.readerSize == -1 {
-			cur, err := brs.Seek(0, io.SeekCurrent)
-			if err != nil {
-				return nil, err
-			}
-			end, err := brs.Seek(0, io.SeekEnd)
-			if err != nil {
-				return nil, err
-			}
+		cur, err := brs.Seek(0, io.SeekCurrent)
+		if err != nil {
+			return nil, err
+		}
+		if end, err := brs.Seek(0, io.SeekEnd); err != nil {
+			// The seeker cannot tell where it ends (e.g. the payload reader of a CARv1 Reader),
+			// so an over-read cannot be detected by seeking: read the block data instead.
+			br.readerSize = sizeUnknowable
+		} else {
 			br.readerSize = end
 			if _, err = brs.Seek(cur, io.SeekStart); err != nil {
 				return nil, err
 			}
 		}
+	}
 
+	if canSeek && br.readerSize != sizeUnknowable {
 		// seek forward past the block data
 		finalOffset, err := brs.Seek(int64(blockSize), io.SeekCurrent)
 		if err != nil {
